@@ -253,6 +253,15 @@ func genHistory(w *World, seed uint64, cfg GenCfg, ops io.Writer, obs io.Writer)
 			}
 		}
 		b.Votes = r.VotesFor(h, absent)
+		// double-sign evidence against a validator of the set that signed the previous block (never in calm histories, and
+		// only while three validators are active, so that the tombstoning does not empty the set by itself)
+		if cfg.Mode != "calm" && h > 2 && s.NBonded >= 3 && g.R.P(3) {
+			if set := r.Sets[h-1]; set != nil && len(set.Validators) >= 3 {
+				v := set.Validators[g.R.N(len(set.Validators))]
+				b.Evid = append(b.Evid, Evid{Key: w.KeyByConsAddr(v.Address), Height: h - 1 - int64(g.R.N(2)), Power: v.VotingPower})
+				g.lastUnbondAt = h
+			}
+		}
 		ntx := g.R.W(25, 40, 20, 10, 5)
 		wildSigner := map[int]bool{}
 		for j := 0; j < ntx; j++ {
